@@ -113,6 +113,38 @@ theorem covers_acked (ks prev : List Nat) (o : Obs) (h : Consistent ks prev o) :
   obtain ⟨ps, _, _, hints, _, hacked, _⟩ := h
   subst hints; exact hacked
 
+/-- what the shared-document monitor accepts -/
+theorem sharedOK_iff (ints : List Nat) (present : Bool) (w n : Nat) :
+    sharedOK ints present w n = true ↔
+      ((∀ x ∈ ints, x = 0) ∧ present = false) ∨
+      ((∃ x ∈ ints, x ≠ 0) ∧ present = true ∧ 0 < n ∧ ints.getD w 0 = n) := by
+  unfold sharedOK
+  by_cases h : ints.all (· == 0) = true
+  · rw [if_pos h]
+    have h' : ∀ x ∈ ints, x = 0 := by
+      intro x hx; simpa using (List.all_eq_true.1 h) x hx
+    constructor
+    · intro hp; exact Or.inl ⟨h', by simpa using hp⟩
+    · rintro (⟨_, hp⟩ | ⟨⟨x, hx, hne⟩, _⟩)
+      · simp [hp]
+      · exact absurd (h' x hx) hne
+  · rw [if_neg h]
+    have h' : ∃ x ∈ ints, x ≠ 0 := by
+      have hf : ints.all (· == 0) = false := by simpa using h
+      rw [List.all_eq_false] at hf
+      obtain ⟨x, hx, hne⟩ := hf
+      exact ⟨x, hx, by simpa using hne⟩
+    simp only [Bool.and_eq_true, decide_eq_true_eq, beq_iff_eq]
+    constructor
+    · intro ⟨⟨hp, hn⟩, hw⟩; exact Or.inr ⟨h', hp, hn, hw⟩
+    · rintro (⟨hz, _⟩ | ⟨_, hp, hn, hw⟩)
+      · obtain ⟨x, hx, hne⟩ := h'; exact absurd (hz x hx) hne
+      · exact ⟨⟨hp, hn⟩, hw⟩
+
+example : sharedOK [4, 7] true 1 7 = true := by decide
+example : sharedOK [4, 7] true 1 6 = false := by decide     -- a copy from an earlier batch of writer 1
+example : sharedOK [0, 0] true 0 1 = false := by decide
+
 example : docsAfter 2 8 = [8, 8, 8, 8, 6, 7, 8, 3, 4, 5] := by decide
 example : check [2, 2] [0, 0] ⟨1, [1, 0], [[1, 1, 1, 0, 0, 1, 0, 0, 0, 0], [0, 0, 0, 0, 0, 0, 0, 0, 0, 0]], [1, 0], 4⟩ = true := by decide
 example : check [2, 2] [0, 0] ⟨1, [1, 0], [[1, 2, 1, 0, 0, 1, 0, 0, 0, 0], [0, 0, 0, 0, 0, 0, 0, 0, 0, 0]], [1, 0], 4⟩ = false := by decide   -- half a batch
